@@ -539,10 +539,16 @@ MUTANTS = [
             pretty_str = pprinter.pretty_print()
 ''', '''        pretty_str = None
 ''', 'C14.2'),
-    V('c14-pretty-after-image', _E, '''        if pretty_str is not None:
-            if self._pretty_print_output == 'stdout':''', '''        if self._enable_pretty_print:
+    V('c14-pretty-after-image', _E, '''        if pretty_str is not None and self._pretty_print_output == 'stdout':
+            print(pretty_str)''', '''        if self._enable_pretty_print and self._pretty_print_output == 'stdout':
             pretty_str = PrettyPrinterFactory.getPrettyPrinter(self._pretty_print_format, compilable_line_obs, self._model, self._source_file).pretty_print()
-            if self._pretty_print_output == 'stdout':''', 'C14.2'),
+            print(pretty_str)''', 'C14.2'),
+    V('c14-listing-file-after-image', _E, '''        if pretty_str is not None and self._pretty_print_output == 'stdout':
+            print(pretty_str)''', '''        if pretty_str is not None and self._pretty_print_output == 'stdout':
+            print(pretty_str)
+        if pretty_str is not None and self._pretty_print_output.endswith('.txt'):
+            with open(self._pretty_print_output, 'w') as f:
+                f.write(pretty_str)''', 'C14.2'),
     V('c14-unknown-continue', _F, '''                # if we are here, that means nothing was matched. Shouldn't happen, so let's error out
                 sys.exit(f'ERROR: {line_id} - unknown instruction "{instruction_str.strip()}"')
 ''', '''                # if we are here, that means nothing was matched; skip this word
